@@ -94,6 +94,34 @@ fn neighbours(table: &[&str]) -> Vec<String> {
                 out.push(s.iter().collect());
             }
         }
+        // repetitions: doubled word, repeated head / tail of every length, every '_' or '-' separated
+        // token doubled in place
+        out.push(format!("{}{}", w, w));
+        for k in 1..c.len() {
+            let head: String = c[..k].iter().collect();
+            let tail: String = c[c.len() - k..].iter().collect();
+            out.push(format!("{}{}", head, w));
+            out.push(format!("{}{}", w, tail));
+            out.push(format!("{}{}{}", w, tail, tail));
+        }
+        for sep in ['_', '-'] {
+            let toks: Vec<&str> = w.split(sep).collect();
+            if toks.len() > 1 {
+                for i in 0..toks.len() {
+                    let mut t2: Vec<&str> = Vec::new();
+                    for (j, t) in toks.iter().enumerate() {
+                        t2.push(t);
+                        if i == j {
+                            t2.push(t);
+                        }
+                    }
+                    out.push(t2.join(&sep.to_string()));
+                    let mut t3: Vec<&str> = toks.clone();
+                    t3.remove(i);
+                    out.push(t3.join(&sep.to_string()));
+                }
+            }
+        }
         // non-ASCII and embedded NUL variants
         out.push(format!("{}\u{0}", w));
         out.push(format!("{}\u{e9}", w));
@@ -148,8 +176,14 @@ fn num_probes() -> Vec<V> {
     for x in [65535u64, 65536, 65537, u32::MAX as u64, 1 << 32, (1 << 32) + 1, (1 << 32) + 3, i64::MAX as u64, 1 << 63, u64::MAX] {
         v.push(V::U(x));
     }
-    for x in 0..=40u64 {
+    for x in 0..=1030u64 {
         v.push(V::N(x));
+    }
+    for base in [65536u64, 1 << 32] {
+        for d in 0..=10 {
+            v.push(V::N(base - d));
+            v.push(V::N(base + d));
+        }
     }
     v.push(V::N(255));
     v.push(V::N(u64::MAX));
